@@ -64,6 +64,15 @@ def ensure_driver():
         raise InfraError("driver does not build:\n" + o[-3000:])
 
 
+def _big_stack():
+    # the model's structurally recursive list functions are not tail recursive; give the driver a deep stack
+    import resource
+    try:
+        resource.setrlimit(resource.RLIMIT_STACK, (resource.RLIM_INFINITY, resource.RLIM_INFINITY))
+    except Exception:
+        pass
+
+
 def model_query(lines, chunk=20000, timeout=3600):
     """send request lines to the model driver, return the parsed JSON answers (same order)"""
     ensure_driver()
@@ -75,7 +84,7 @@ def model_query(lines, chunk=20000, timeout=3600):
 
     def one(ch):
         p = subprocess.run([DRIVER], input="\n".join(ch) + "\n", stdout=subprocess.PIPE,
-                           stderr=subprocess.PIPE, text=True, timeout=timeout)
+                           stderr=subprocess.PIPE, text=True, timeout=timeout, preexec_fn=_big_stack)
         if p.returncode != 0:
             raise InfraError(f"driver exited {p.returncode}: {p.stderr[-2000:]}")
         res = p.stdout.splitlines()
@@ -93,8 +102,25 @@ def model_query(lines, chunk=20000, timeout=3600):
 
 
 # ---------------------------------------------------------------- request syntax
-def f_items(vals):
-    return "[" + ",".join(f"{i}:{v}" for i, v in enumerate(vals)) + "]"
+def f_items(vals, ids=None):
+    ids = range(len(vals)) if ids is None else ids
+    return "[" + ",".join(f"{i}:{v}" for i, v in zip(ids, vals)) + "]"
+
+
+def ids_for(fmt, vals, names):
+    """id of each item as the model sees it.
+    dict / names+valueof input: the rank of the item's name (algorithms that sort or compare names - the
+    contents manager's all_combinations - then agree with the model).
+    list / array input: the name *is* the value, so equal values are indistinguishable to the code; the model
+    is given id = value, which makes them indistinguishable there too."""
+    n = len(vals)
+    if fmt in ("list", "array"):
+        return list(vals)
+    order = sorted(range(n), key=lambda i: names[i])
+    ids = [0] * n
+    for r, i in enumerate(order):
+        ids[i] = r
+    return ids
 
 
 def f_nats(l):
@@ -171,10 +197,29 @@ def name_c(x):
     return x
 
 
+def _has_inf(res, outtype):
+    try:
+        if outtype == "PartitionAndSums":
+            res = (res.sums, res.lists)
+        flat = []
+        def walk(x, d=0):
+            if isinstance(x, (list, tuple, np.ndarray)) and d < 3:
+                for y in x:
+                    walk(y, d + 1)
+            else:
+                flat.append(x)
+        walk(res)
+        return any(isinstance(x, (float, np.floating)) and math.isinf(x) for x in flat)
+    except Exception:
+        return False
+
+
 def canon_impl(res, outtype):
     """canonical form of what prtpy returned for the given output type"""
     if res is None:
         return {"none": True}
+    if _has_inf(res, outtype):
+        return {"none": True}       # CBLDM's explicit no-solution-yet placeholder ([0, inf], [0, inf]) (DESIGN §10)
     if outtype in ("Sums", "SortedSums"):
         return [num(x) for x in res]
     if outtype in ("LargestSum", "SmallestSum", "Difference", "BinCount"):
@@ -212,7 +257,7 @@ def project_model(ans, outtype, names):
         return max(sums) - min(sums)
     if outtype == "BinCount":
         return len(sums)
-    bins = [[names[i] for i in b] for b in ans["bins"]]
+    bins = [[names[i] for i in b] for b in ans["bins"]]      # names: id -> name
     if outtype == "Partition":
         return bins
     return {"sums": list(sums), "bins": bins}
